@@ -7,6 +7,10 @@ ids = [json.loads(l)["id"] for l in open(os.path.join(HERE, "properties.jsonl"))
 TECH = "bounded model checking of the real code: Kani 0.68 -> CBMC 6.11 (cadical SAT); symbolic inputs, concrete sizes, unwinding assertions on; counterexamples replayed natively"
 
 CLAIMED = {
+ "C15": dict(
+   text="A generic contract Gc<A,B,V,R,U,W> (A used directly, B only inside Option, V only inside Vec, R only as a query response, U unused, W under a where-bound relating it to A) and an interface with associated types are expanded by the real macros; the harness crate NAMES each generated type with exactly the expected parameters (ExecMsg<A,B,V>, QueryMsg<R>, SudoMsg<W>, InstantiateMsg, IfgExecMsg<T1>, IfgQueryMsg<T2>) and equates them with the ContractApi aliases (compile gate), and CBMC decides differentially against a non-generic twin, over symbolic values: same serde events, same accepted names (phantom placeholder never accepted), same decode verdict and value, same handler and argument on dispatch (including the interface arm).",
+   note="the parameter lists / where-clauses themselves are token-level facts decided only through the compile gate; one instantiation; program dimension sampled by one generic contract + one interface",
+   ref="§3 C15"),
  "C14": dict(
    text="The same program is expanded by the real macros in three declaration orders (methods of the impl, methods of the interface trait, #[sv::messages] and #[sv::override_entry_point] attributes permuted: written, reversed, rotated). CBMC decides differentially, over symbolic inputs: published name lists identical; every received 2-byte name accepted by the same message types; equal messages serialise to equal events; the same exec/sudo/instantiate/migrate message through each twin's entry point runs the same handler with the same arguments and outcome; a reply for a shared handler name (success method with #[sv::data] + error method, in either order) and for a solo name reaches the same method with the same arguments (only id constants differ). That every order is ACCEPTED with the same set of entry points is the compile gate -- it found the data-parameter merge defect (fixed).",
    note="3 of n! permutations sampled; query results compared per order in C02 only; stubs: Backtrace::capture, fmt::format",
